@@ -20,13 +20,16 @@ META = {
     'level': 'exploration',
     'rule': ('Generated call histories (<= 12 steps) over one or two Quantizer '
              'objects on the same generated model: set recipe (shipped or '
-             'generated rules), calibrate (optionally resumed), quantize with '
+             'generated rules, also as a caller-owned list of dicts), single '
+             'updates on top of a used recipe, calibrate (optionally resumed), quantize with '
              'the SHARED calibration result object, validate. After every call '
              'all caller-owned objects are compared with deep snapshots, and '
              'every quantize() result is compared (sha256) with a fresh '
              'Quantizer given deep copies of the same arguments; a sample of '
              'cases is re-executed in fresh processes under PYTHONHASHSEED 1 '
-             'and 12345. Non-trivial = the history quantizes with the same '
+             'and 12345. Phase model_by_path: a model file is quantized by '
+             'path, a same-size variant is written to the same or another path '
+             'and quantized by path; both must equal Quantizer(bytes). Non-trivial = the history quantizes with the same '
              'statistics object under >= 2 different recipes, at least one '
              'touching a same-scale or fixed-range op; distinct by case hash.'),
     'assumptions': ['load_config_policy is outside the history alphabet (documented as replacing the process-wide policy)'],
